@@ -1735,6 +1735,84 @@ def _walk_stmt_own(st):
         stack.extend(ast.iter_child_nodes(n))
 
 
+def _tail_recursion_to_loops(tree):
+    """a private function all of whose recursive calls are tail calls `return _f(args)` becomes a loop:
+         def _f(p, q): if C: return _f(E1, E2) ; return R        ->      def _f(p, q): while C: p, q = E1, E2 ; return R
+    (general form: body wrapped in `while True`, `return _f(args)` -> parameter assignment ; continue - then the two common shapes are simplified back)"""
+    changed = False
+    for c in [tree] + [n for n in tree.body if isinstance(n, ast.ClassDef)]:
+        for fn in c.body:
+            if not (isinstance(fn, ast.FunctionDef) and fn.name.startswith('_') and not fn.name.startswith('__') and not fn.decorator_list and c is tree):
+                continue
+            if fn.args.vararg or fn.args.kwarg or fn.args.kwonlyargs or fn.args.posonlyargs:
+                continue
+            params = [a.arg for a in fn.args.args]
+            calls = [x for x in ast.walk(fn) if isinstance(x, ast.Call) and isinstance(x.func, ast.Name) and x.func.id == fn.name]
+            refs = [x for x in ast.walk(fn) if isinstance(x, ast.Name) and x.id == fn.name]
+            if not calls or len(refs) != len(calls):
+                continue
+            rets = {id(x.value): x for x in _walk_fn_own(fn) if isinstance(x, ast.Return) and x.value is not None}
+            if not all(id(cl) in rets for cl in calls):
+                continue
+            if any(cl.keywords or any(isinstance(a, ast.Starred) for a in cl.args) or len(cl.args) != len(params) for cl in calls):
+                continue
+            if any(isinstance(x, (ast.FunctionDef, ast.Lambda, ast.Yield, ast.YieldFrom, ast.Try, ast.With)) for x in _walk_fn_own(fn)):
+                continue
+            # tail returns must not sit inside a loop of the function (continue would bind to that loop)
+            def in_loop(target, stmts, inside=False):
+                for st in stmts:
+                    if st is target:
+                        return inside
+                    for fld in ('body', 'orelse'):
+                        sub = getattr(st, fld, None)
+                        if isinstance(sub, list) and sub and isinstance(sub[0], ast.stmt):
+                            r = in_loop(target, sub, inside or isinstance(st, (ast.For, ast.While)))
+                            if r is not None:
+                                return r
+                return None
+            if any(in_loop(rets[id(cl)], fn.body) for cl in calls):
+                continue
+
+            def assign_for(cl):
+                pairs = [(p, a) for p, a in zip(params, cl.args) if not (isinstance(a, ast.Name) and a.id == p)]
+                if not pairs:
+                    return []
+                if len(pairs) == 1:
+                    return [ast.Assign(targets=[ast.Name(id=pairs[0][0], ctx=ast.Store())], value=pairs[0][1])]
+                return [ast.Assign(targets=[ast.Tuple(elts=[ast.Name(id=p, ctx=ast.Store()) for p, _ in pairs], ctx=ast.Store())], value=ast.Tuple(elts=[a for _, a in pairs], ctx=ast.Load()))]
+            doc = fn.body[:1] if fn.body and isinstance(fn.body[0], ast.Expr) and isinstance(fn.body[0].value, ast.Constant) and isinstance(fn.body[0].value.value, str) else []
+            body = fn.body[len(doc):]
+            new_body = None
+            # shape 1:  if C: return _f(..)  [else:] ; REST          shape 2:  if C: REST(return R) ; return _f(..)
+            if len(body) >= 2 and isinstance(body[0], ast.If) and len(body[0].body) == 1 and isinstance(body[0].body[0], ast.Return) and len(calls) == 1:
+                first, rest = body[0], (body[0].orelse or body[1:])
+                if first.orelse and body[1:]:
+                    rest = None
+                if rest is not None and first.body[0].value is calls[0] and not any(x is calls[0] for st in rest for x in ast.walk(st)):
+                    new_body = [ast.While(test=first.test, body=assign_for(calls[0]) or [ast.Pass()], orelse=[])] + list(rest)
+                elif rest is not None and len(rest) == 1 and isinstance(rest[0], ast.Return) and rest[0].value is calls[0] and not any(x is calls[0] for x in ast.walk(first.body[0])):
+                    new_body = [ast.While(test=ast.UnaryOp(op=ast.Not(), operand=first.test), body=assign_for(calls[0]) or [ast.Pass()], orelse=[]), first.body[0]]
+            if new_body is None:
+                class T(ast.NodeTransformer):
+                    def visit_Return(self, n):
+                        if n.value is not None and any(n.value is cl for cl in calls):
+                            return assign_for(n.value) + [ast.Continue()]
+                        return n
+                wrapped = [T().visit(st) for st in body]
+                flat = []
+                for x in wrapped:
+                    flat.extend(x if isinstance(x, list) else [x])
+                if not isinstance(flat[-1], (ast.Return, ast.Raise, ast.Continue)):
+                    flat.append(ast.Return(value=None))
+                new_body = [ast.While(test=ast.Constant(value=True), body=flat, orelse=[])]
+            fn.body = doc + new_body
+            for st in fn.body:
+                ast.copy_location(st, fn)
+            ast.fix_missing_locations(fn)
+            changed = True
+    return changed
+
+
 def _split_chained_assignments(tree):
     """a = b = E  ->  a = E ; b = a        (plain names; E is evaluated once, the targets are bound left to right)"""
     class T(ast.NodeTransformer):
@@ -1827,6 +1905,7 @@ def normalize_module(tree, modname):
     if not has_np:
         spell.math_aliases = ()
     _split_chained_assignments(tree)
+    _tail_recursion_to_loops(tree)
     from . import devirt
     devirt.devirtualize(tree)
     _expand_private_contextmanagers(tree)
